@@ -52,9 +52,9 @@ CHECKS = {
  "C08": dict(
    engine="simnet+proptest + child-process racer",
    level="fault_enumeration",
-   technique="property-based testing: generated mixes of in-flight work at the shutdown instant on the simulated network (virtual-time bounds, resource and event oracles) with the runtime dropped at enumerated packet-event times of a reference run; plus a schedule-fuzzing racer that pre-empts one worker thread at generated poll points (tracing subscriber) while a multi-thread runtime is torn down in child processes",
+   technique="property-based testing: generated mixes of in-flight work at the shutdown instant on the simulated network (virtual-time bounds, resource and event oracles) with the runtime dropped at enumerated packet-event times of a reference run; plus a schedule-fuzzing racer that pre-empts one worker thread at generated poll points (tracing subscriber) while a multi-thread runtime is torn down in child processes; plus generated handler behaviours (synchronous stretches, block_in_place, yield loops) in flight at shutdown() on a real multi-thread runtime with a reference-count oracle at the instant shutdown() returns",
    text="Crash points are enumerated at packet-event granularity per generated scenario (virtual time); multi-thread teardown races are sampled by the racer, which owns the pre-emption point but not the whole schedule. Four teardown defects found by it were repaired by fix: commits and would be reported again.",
-   note="Trusted: fabric + paused clock for part A. Racer: real threads and real loopback UDP, statistical replay (10 runs), a slow child is inconclusive; the only hook it reads is the accept-None counter (H3). Known finding F8 (address stays bound while the application holds a Peer handle) is attributed only when dropping the handles frees the address; the case then continues.",
+   note="Trusted: fabric + paused clock for part A. Racer: real threads and real loopback UDP, statistical replay (10 runs), a slow child is inconclusive; the only hook it reads is the accept-None counter (H3). busy-handlers: real threads and loopback UDP in-process; which handlers are inside a synchronous stretch at the shutdown call is computed from generated durations and the measured delay; steps slower than 20 s are inconclusive. Known finding F8 (address stays bound while the application holds a Peer handle) is attributed only when dropping the handles frees the address; the case then continues.",
    design="§4 C08, §3.5"),
  "C09": dict(
    engine="simnet+proptest",
@@ -165,6 +165,7 @@ def main():
             {"name": "simnet", "path": "harness/src/simnet", "serves_properties": ["C01","C02","C03","C04","C05","C06","C08","C09","C10","C11","C12","C13","C14","C15","C17"], "kind_free_text": "whole anemo networks on an in-memory datagram fabric under tokio's paused clock; proptest-generated scenarios, faults and schedules"},
             {"name": "proptest", "path": "harness/src/core.rs", "serves_properties": ALL, "kind_free_text": "sharded proptest driver with labels, distinct-non-trivial counting, shrinking to replay files"},
             {"name": "teardown-racer", "path": "harness/src/props/c08_racer.rs", "serves_properties": ["C08"], "kind_free_text": "child processes on a multi-thread runtime; a tracing subscriber pre-empts one worker at generated poll points while the runtime is torn down"},
+            {"name": "busy-handlers", "path": "harness/src/props/c08_busy.rs", "serves_properties": ["C08"], "kind_free_text": "real networks on a real multi-thread runtime with handlers that are running (not parked) when shutdown() is called"},
             {"name": "libfuzzer", "path": "harness/fuzz", "serves_properties": ["C01","C06","C07","C16"], "kind_free_text": "cargo-fuzz targets sharing the harness oracles (thorough tiers)"},
         ],
         "checks": checks,
